@@ -28,7 +28,8 @@ renaming, builtins, goal classification, ball copying — all imported, nothing 
 
 The second part (`Scryer.Exc.Proto`) is a small machine mirroring the bookkeeping of
 `install_scc_cleaner` / `get_scc_cleaner` / `run_cleaners` (src/machine/system_calls.rs, mod.rs):
-the stack `cont_pts` of (handler, `b_cutoff`) against the choice point register `b`.
+the stack `cont_pts` of (handler, `b_cutoff`) against the choice point register `b` — with the REPAIRED
+comparison in the clean-up loop (finding C12-2; `runCleanersPinned` keeps the pinned one).
 -/
 namespace Scryer.Exc
 open Scryer Scryer.Solve
@@ -445,6 +446,27 @@ def runCleaners (b : Nat) : List (Nat × Nat) → List (Nat × Nat) × List Nat
   | (id, cutoff) :: rest =>
       if b < cutoff then
         let r := runCleaners b rest
+        (r.1, id :: r.2)
+      else ((id, cutoff) :: rest, [])
+
+/-- the loop as the pinned code runs it (finding C12-2): `run_cleaners` (Rust) starts it only if the
+    newest entry has `b < b_cutoff`, but `'$get_scc_cleaner'`, which pops the entries one by one,
+    compares with `b <= b_cutoff`: once started, the loop also takes the entry whose `scc_helper/3`
+    choice point is exactly the new top of the stack, i.e. the handler of a goal that is still
+    running. (`runCleaners` above is the repaired loop: strict comparison throughout.) -/
+def runCleanersLe (b : Nat) : List (Nat × Nat) → List (Nat × Nat) × List Nat
+  | [] => ([], [])
+  | (id, cutoff) :: rest =>
+      if b ≤ cutoff then
+        let r := runCleanersLe b rest
+        (r.1, id :: r.2)
+      else ((id, cutoff) :: rest, [])
+
+def runCleanersPinned (b : Nat) : List (Nat × Nat) → List (Nat × Nat) × List Nat
+  | [] => ([], [])
+  | (id, cutoff) :: rest =>
+      if b < cutoff then
+        let r := runCleanersLe b rest
         (r.1, id :: r.2)
       else ((id, cutoff) :: rest, [])
 
